@@ -337,21 +337,31 @@ def check_c04(ctx):
                    'part file is created exclusively: flags `%s` (with self.open_flags = %s) include '
                    'O_CREAT|O_EXCL and write access, no O_TRUNC' % (ft, btxt), ok, loc=C.loc(e.op),
                    detail='folded to %r' % (val,))
-    # O2 co-location: every definition of self.part_path derives from the destination
+    # O2 co-location: every value stored into self.part_path, on every path of every method that stores it,
+    # derives from the destination (locals copy-propagated, fields read through the path's field environment)
     n_pp = 0
     for m in ci.members.values():
         if not isinstance(m, FuncInfo):
             continue
-        for n in ast.walk(m.node):
-            if isinstance(n, ast.Assign):
-                for t in n.targets:
-                    if isinstance(t, ast.Attribute) and t.attr == 'part_path' and isinstance(t.value, ast.Name) \
-                            and t.value.id == 'self':
-                        n_pp += 1
-                        ok, why = derives_from_dest(ci, m, n.value)
-                        ctx.ob('C04.O2', m.fq, 'part path `%s` is derived from the destination path '
-                               '(same directory => same file system => rename is atomic)' % txt(n.value),
-                               ok, loc='%s:%d' % (mod.relpath, n.lineno), detail=why)
+        if not any(isinstance(n, ast.Attribute) and n.attr == 'part_path' and isinstance(n.ctx, ast.Store) for n in ast.walk(m.node)):
+            continue
+        wq = Walker(prog, Model(prog))
+        seen = set()
+        for p in wq.paths(m, recv=ci):
+            if p.kind == 'cutoff':
+                continue
+            for o in p.ops:
+                if o.kind == 'attr_store' and txt(o.val) == 'self.part_path' and o.info is not None:
+                    e = wq.expand(o.info)
+                    key = (o.line, txt(e))
+                    if key in seen:
+                        continue
+                    seen.add(key)
+                    n_pp += 1
+                    ok, why = derives_from_dest(wq, o, e, folder)
+                    ctx.ob('C04.O2', m.fq, 'part path `%s` is derived from the destination path '
+                           '(same directory => same file system => rename is atomic)' % txt(e)[:90],
+                           ok, loc='%s:%d' % (mod.relpath, o.line), detail=why)
     if n_pp == 0:
         raise AnalysisError('anchor vanished: no assignment to self.part_path')
     # O3 handle identity --------------------------------------------------------
@@ -468,50 +478,65 @@ def check_c04(ctx):
     return C
 
 
-def derives_from_dest(ci, m, expr):
-    """part path expression is <dest> + const  or  join(dirname(<dest>), name)."""
-    def is_dest(e):
+def derives_from_dest(w, op, expr, folder):
+    """part path value is <dest> + const-suffix  or  join(dirname(<dest>), name)."""
+    fenv = op.fenv or {}
+
+    def field(e):
         t = txt(e)
-        if t in ('dest_path', 'self.dest_path'):
+        if t in fenv and fenv[t] is not None:
+            return w.expand(fenv[t])
+        return e
+
+    def is_dest(e, depth=0):
+        if depth > 6:
+            return False
+        t = txt(e)
+        if t == 'dest_path':
             return True
-        if isinstance(e, ast.Call) and call_name(e) in ('os.path.abspath', 'os.path.normpath', 'os.fspath', 'str') \
-                and e.args:
-            return is_dest(e.args[0])
+        if t == 'self.dest_path':
+            return True          # the destination attribute itself (its own stores are checked separately)
+        if isinstance(e, ast.Call) and call_name(e) in ('os.path.abspath', 'os.path.normpath', 'os.fspath', 'str',
+                                                          'os.path.realpath', 'os.path.expanduser') and e.args:
+            return is_dest(e.args[0], depth + 1)
         return False
 
-    def is_dir(e):
+    def is_dir(e, depth=0):
+        if depth > 6:
+            return False
         if txt(e) == 'self.dest_dir':
-            # all stores of dest_dir must be dirname(dest)
-            ok = False
-            for mm in ci.members.values():
-                if isinstance(mm, FuncInfo):
-                    for n in ast.walk(mm.node):
-                        if isinstance(n, ast.Assign):
-                            for t in n.targets:
-                                if isinstance(t, ast.Attribute) and t.attr == 'dest_dir':
-                                    if isinstance(n.value, ast.Call) and call_name(n.value) == 'os.path.dirname' \
-                                            and is_dest(n.value.args[0]):
-                                        ok = True
-                                    else:
-                                        return False
-            return ok
+            f = field(e)
+            return False if f is e else is_dir(f, depth + 1)
         if isinstance(e, ast.Call) and call_name(e) == 'os.path.dirname' and e.args:
             return is_dest(e.args[0])
         return False
-    if isinstance(expr, ast.BinOp) and isinstance(expr.op, ast.Add) and is_dest(expr.left) and \
-            isinstance(expr.right, ast.Constant) and isinstance(expr.right.value, str) and \
-            '/' not in expr.right.value:
-        return True, 'destination + %r' % expr.right.value
+
+    def const_str(e):
+        if isinstance(e, ast.Constant):
+            return e.value if isinstance(e.value, str) else None
+        try:
+            v = folder.fold(e)
+            return v if isinstance(v, str) else None
+        except Unknown:
+            return None
+    if isinstance(expr, ast.BinOp) and isinstance(expr.op, ast.Add) and is_dest(expr.left):
+        suf = const_str(expr.right)
+        if suf is not None and '/' not in suf and suf:
+            return True, 'destination + %r' % suf
+        return False, 'suffix is not a constant file-name suffix: %s' % txt(expr.right)
+    if isinstance(expr, ast.Name):
+        info = w.tokens.get(expr.id)
+        if info and info[0] == 'fresh' and info[1] == 'str':
+            expr = info[2]
     if isinstance(expr, ast.JoinedStr):
         vals = expr.values
         if vals and isinstance(vals[0], ast.FormattedValue) and is_dest(vals[0].value) and \
                 all(isinstance(v, ast.Constant) and '/' not in v.value for v in vals[1:]):
             return True, 'f-string destination + suffix'
-    if isinstance(expr, ast.Call) and call_name(expr) == 'os.path.join' and len(expr.args) >= 2 \
-            and is_dir(expr.args[0]):
-        rest = expr.args[1:]
-        for r in rest:
-            if isinstance(r, ast.Constant) and isinstance(r.value, str) and r.value.startswith('/'):
+    if isinstance(expr, ast.Call) and call_name(expr) == 'os.path.join' and len(expr.args) >= 2 and is_dir(expr.args[0]):
+        for r in expr.args[1:]:
+            c = const_str(r)
+            if c is not None and c.startswith('/'):
                 return False, 'absolute constant component'
             if isinstance(r, ast.Call) and 'temp' in call_name(r):
                 return False, 'temporary-directory component'
